@@ -782,6 +782,10 @@ func init() {
 				}
 			}
 		}
+		// 3b. round 4 (c07h.go): pairs of DATE values against the characterised guard; sequences of
+		// copies between several documents
+		c07round4(c)
+
 		// 4. nil nodes
 		c07nilCases(c)
 
